@@ -34,7 +34,7 @@ FAULTS = [
     "side_missing", "side_truncated", "side_swapped", "stream_eio", "stream_eof", "stream_closed", "multi_flip", "len_field", "many_lines_one_long",
     "token_copy", "json_field", "container_inner",
 ]
-CONTAINERS = {"3mf", "glb", "zip_stl", "zip_ply", "zip_glb", "zip_obj_mtl", "targz_obj"}
+CONTAINERS = {"3mf", "glb", "zip_stl", "zip_ply", "zip_glb", "zip_obj_mtl", "targz_obj", "tarbz2_ply", "bz2_stl"}
 TEXTUAL = {"gltf", "dae", "svg", "dxf", "obj", "obj_mtl", "off", "ply_ascii", "stl_ascii", "dict", "dict64", "xyz"}
 INNER_KINDS = ["token_copy", "token_copy", "token_copy", "token_copy", "json_field", "int_field", "flip_bit", "truncate", "delete_range", "dup_range", "set_byte", "zero_fill"]
 # keys a glTF / JSON document may legally carry that trimesh's own exporter never writes, and values worth trying in any numeric slot
@@ -267,6 +267,29 @@ def json_field(data, f):
         return data
 
 
+def _tar_inner(raw, f, inner):
+    """Apply the inner fault to one member of an uncompressed tar archive and write the archive again; None if it is not one."""
+    import io
+    import tarfile
+
+    try:
+        with tarfile.open(fileobj=io.BytesIO(raw)) as t:
+            members = [(m.name, t.extractfile(m).read()) for m in t.getmembers() if m.isfile()]
+    except Exception:
+        return None
+    if not members:
+        return None
+    j = f.get("j", 0) % len(members)
+    members[j] = (members[j][0], apply_fault(members[j][1], inner, b""))
+    buf = io.BytesIO()
+    with tarfile.open(fileobj=buf, mode="w") as t:
+        for name, b in members:
+            info = tarfile.TarInfo(name)
+            info.size = len(b)
+            t.addfile(info, io.BytesIO(b))
+    return buf.getvalue()
+
+
 def container_inner(data, f, other=b""):
     """Valid container, corrupt content: apply a fault to one member of a zip / 3MF / tar.gz archive or to the JSON chunk of a GLB and
     re-pack with correct sizes and checksums, so the fault reaches the parser behind the decompressor."""
@@ -305,27 +328,26 @@ def container_inner(data, f, other=b""):
             for name, b in members:
                 z.writestr(zipfile.ZipInfo(name, date_time=(2020, 1, 1, 0, 0, 0)), b, compress_type=zipfile.ZIP_DEFLATED)
         return buf.getvalue()
+    if data[:3] == b"BZh":
+        import bz2
+
+        try:
+            raw = bz2.decompress(data)
+        except Exception:
+            return data
+        if raw[257:262] == b"ustar":
+            out = _tar_inner(raw, f, inner)
+            return data if out is None else bz2.compress(out)
+        return bz2.compress(apply_fault(raw, inner, b""))
     if data[:2] == b"\x1f\x8b":
         import gzip
-        import tarfile
 
         try:
             raw = gzip.decompress(data)
-            with tarfile.open(fileobj=io.BytesIO(raw)) as t:
-                members = [(m.name, t.extractfile(m).read()) for m in t.getmembers() if m.isfile()]
         except Exception:
             return data
-        if not members:
-            return data
-        j = f.get("j", 0) % len(members)
-        members[j] = (members[j][0], apply_fault(members[j][1], inner, b""))
-        buf = io.BytesIO()
-        with tarfile.open(fileobj=buf, mode="w") as t:
-            for name, b in members:
-                info = tarfile.TarInfo(name)
-                info.size = len(b)
-                t.addfile(info, io.BytesIO(b))
-        return gzip.compress(buf.getvalue(), mtime=0)
+        out = _tar_inner(raw, f, inner)
+        return data if out is None else gzip.compress(out, mtime=0)
     return data
 
 
@@ -378,7 +400,7 @@ class C20(World):
     BLOCK = 40
     BLOCK_TIMEOUT = 300
     RULE = (
-        "one evaluation = one valid payload (33 kind/format pipes) + 2-8 load attempts each under one storage or stream fault (31 kinds; in the thorough "
+        "one evaluation = one valid payload (36 kind/format pipes, or one of ~90 small model files of the tree under test) + 2-8 load attempts each under one storage or stream fault (31 kinds; in the thorough "
         "tier truncation is enumerated at every offset for payloads <= 4 KiB) x 4 loader entry points x 3 transports; distinct_nontrivial counts distinct "
         "(format, fault kind, route, transport, outcome class) tuples observed"
     )
